@@ -14,6 +14,7 @@
 #include "../genlib/parse_input.h"
 #include "../genlib/setters.h"
 #include "../genlib/render.h"
+#include "../genlib/optconv.h"
 #include "../ref/pcapfile.h"
 #include "../ref/dissect.h"
 #include "../ref/wire_positions.h"
